@@ -66,10 +66,9 @@ def make_method(world_box, provider, name, is_async, uid):
 
         async def m(self, *args, **kwargs):
             w = world_box[0]
-            r = w.cb(provider, name, self, args, kwargs)
-            if hasattr(r, "__await__"):
-                r = await r
-            return r
+            if hasattr(w, "acb"):
+                return await w.acb(provider, name, self, args, kwargs)
+            return w.cb(provider, name, self, args, kwargs)
 
     else:
 
